@@ -680,6 +680,10 @@ def dsk12(ctx, c):
                 mm = re.search(r"Lin\(([^()]*(?:\([^()]*\)[^()]*)*)\)", txt)
                 total = mm.group(0) if mm else None
             stream = _stream_len(o, p_data)
+            if has_post is None and stream is not None:
+                c.finding("%s[any]" % name, "stream = %r regardless of the postamble" % stream,
+                          "%s computes the stored stream length as %r without looking at the postamble; a machine-language file carries a 5-byte trailer" % (name, stream), where)
+                continue
             if stream is None:
                 c.undecided(site, "stream-length-not-extractable", txt[:100], where)
                 continue
@@ -691,7 +695,7 @@ def dsk12(ctx, c):
                     "stream = %r" % stream,
                     "%s computes the stored stream length as %r when the postamble is %s; it is len(data) + preamble.length%s"
                     % (name, stream, "present" if has_post else "absent", " + postamble.length" if has_post else ""), where)
-    c.floor("stream-length paths", n, 6)
+    c.floor("stream-length paths", n, 3)
     # (b) granule and sector counts as arithmetic functions: fold for every length
     K = _consts(ctx)
     gfn = repo.method(CLS, "calculate_granules_needed")
@@ -740,7 +744,30 @@ def dsk12(ctx, c):
         site = "last-granule identity[%s]" % ("postamble" if o_b.path.atoms().get([p for p in fb.params if p not in ("self", "cls")][2]) else "no postamble")
         where = repo.loc(fb, fb.node)
         if not (isinstance(vs, Ctor) and vs.cls.startswith("call:") and vs.cls.endswith("calculate_sectors_needed")):
-            c.undecided(site, "sector-count-not-a-call-of-calculate_sectors_needed", repr(vs)[:80], repo.loc(fs, fs.node))
+            # not the shared helper: compare the returned expression with the helper on every last-granule length
+            rets = [x for x in ast.walk(fs.node) if isinstance(x, ast.Return) and x.value is not None]
+            decided = False
+            if len(rets) == 1:
+                names = {x.id for x in ast.walk(rets[0].value) if isinstance(x, ast.Name)}
+                lvars = [nm for nm in names if isinstance(o_s.path.env.get(nm), Lin) and "call:len(" in repr(o_s.path.env.get(nm))]
+                if len(lvars) == 1:
+                    try:
+                        diff = None
+                        for nb in range(0, D.GRANULE_LEN):
+                            a = fold(rets[0].value, dict(ctx.env, **{lvars[0]: nb}))
+                            b = S(nb)
+                            if a != b:
+                                diff = (nb, a, b)
+                                break
+                        decided = True
+                        c.check(diff is None, site, "sector count equals calculate_sectors_needed on 0..2303",
+                                "L=%s: sectors=%s but the byte count assumes %s" % (diff or (0, 0, 0)),
+                                "for a last granule holding %s bytes the FAT gets %s sector(s) while the directory's byte count is computed for %s: "
+                                "the implied length differs from the stored stream by a sector" % (diff or (0, 0, 0)), repo.loc(fs, fs.node))
+                    except NotConst:
+                        pass
+            if not decided:
+                c.undecided(site, "sector-count-not-comparable", repr(vs)[:80], repo.loc(fs, fs.node))
             continue
         L = vs.args[0]
         ssym = repr(vs)
